@@ -1,6 +1,198 @@
 /-
-C09 — property theorems (under construction).
+C09 — property theorems: required SASL cannot be bypassed; STS policies are stored only on verified
+TLS, upgrade an insecure connection, and are applied while unexpired.
+
+`Reach cfg base s` (C08/Trace.lean) quantifies over every history of server messages and resets.
+The STS theorems are about the decision points of the code as modelled in C08/Model.lean:
+`onCapSts` (Irc._onCapSts), `realReconnect`/`drvConnect`/`getNextServer`/`applyStsPolicy`/`tlsChoice`
+(SocketDriver.reconnect, ServersMixin._getNextServer/_applyStsPolicy, starttls), `flush` (_sendIfMsgs).
 -/
 import LimnoriaModel.C09.Lemmas
+import LimnoriaModel.C08.Props
 namespace C09
+open Py C08
+open Gen.Conn (Fsm)
+
+/-! ### sasl.required -/
+
+/-- With `sasl.required`, in every reachable state: the FSM being past the negotiation
+(INIT_WAITING_MOTD, INIT_MOTD, CONNECTED, CONNECTED_SASL), `afterConnect` being set, or a `CAP END` having
+been sent in this epoch, each implies that the server confirmed SASL success (903) in this epoch. -/
+theorem sasl_required_safe (cfg : Cfg) (base s : St) (hr : cfg.required = true) (r : Reach cfg base s) :
+    (pastNegotiation s.fsm = true ∨ s.afterConnect = true ∨ 0 < s.endCount) → s.saslAuth = true :=
+  (absInv_req cfg).reach r hr
+
+/-- the configuration of the C08 examples with `sasl.required` -/
+def exReq : Cfg := { exCfg with required := true }
+def exR0 : St := (start exReq {}).st
+def exR1 : St := (step exReq exR0 exLs).st
+def exR2 : St := (step exReq exR1 exAck).st
+def exR3 : St := (step exReq exR2 exAuth).st
+def exR4 : St := (step exReq exR3 ex903).st
+theorem exR4_reach : Reach exReq {} exR4 :=
+  .op (.msg ex903) (.op (.msg exAuth) (.op (.msg exAck) (.op (.msg exLs) .start)))
+example : exReq.required = true ∧ pastNegotiation exR4.fsm = true ∧ exR4.saslAuth = true := by decide
+
+/-- With `sasl.required`, a `CAP END` is put on the queue only by a step after which SASL is confirmed. -/
+theorem cap_end_needs_auth (cfg : Cfg) (base s : St) (hr : cfg.required = true) (r : Reach cfg base s) (m : Msg)
+    (h : Out.capEnd ∈ (step cfg s m).fast) : (step cfg s m).st.saslAuth = true := by
+  have hq := (reach_drained r).1
+  have hcnt : 0 < ends (step cfg s m).fast := by
+    unfold ends; rw [List.count_pos_iff]; simp only [List.mem_map]; exact ⟨_, h, rfl⟩
+  have hpos : 0 < (step cfg s m).st.endCount := by
+    rcases cap_end_counted cfg s m hq with ⟨_, h2⟩ | ⟨_, _, h2⟩ <;> omega
+  exact sasl_required_safe cfg base _ hr (.op (.msg m) r) (.inr (.inr hpos))
+
+example : Out.capEnd ∈ (step exReq exR3 ex903).fast := by decide
+
+/-- the witness scripts of the repaired defect now abort instead of finishing the registration:
+the server omits `sasl` from CAP LS -/
+def exLsNoSasl : Msg := ⟨sCAP, [exStar, ['L','S'], ['b','a','t','c','h']], []⟩
+def exAckBatch : Msg := ⟨sCAP, [exStar, ['A','C','K'], ['b','a','t','c','h']], []⟩
+example :
+    (step exReq (step exReq exR0 exLsNoSasl).st exAckBatch).fast = [] ∧
+    (step exReq (step exReq exR0 exLsNoSasl).st exAckBatch).events = [.reconnect true none] := by decide
+
+/-! ### STS: parsing -/
+
+/-- `parseStsPolicy` returns None exactly when `port` — or `duration`, when it is needed — is missing,
+valueless or not an integer; for every policy string. -/
+theorem sts_parse (policy : Str) (d : Bool) :
+    parseStsPolicy policy d = none ↔
+      (stsInt (stsDict policy) sPort = none ∨ (d = true ∧ stsInt (stsDict policy) sDuration = none)) := by
+  unfold parseStsPolicy
+  simp only
+  cases hp : stsInt (stsDict policy) sPort with
+  | none => simp
+  | some p =>
+    cases d with
+    | false => simp
+    | true =>
+      cases hd : stsInt (stsDict policy) sDuration with
+      | none => simp
+      | some x => simp
+
+theorem stsInt_none (dict : List (Str × Option Str)) (k : Str) :
+    stsInt dict k = none ↔
+      (dictGet dict k = none ∨ dictGet dict k = some none ∨ ∃ v, dictGet dict k = some (some v) ∧ pyInt v = none) := by
+  unfold stsInt
+  cases h : dictGet dict k with
+  | none => simp
+  | some o =>
+    cases o with
+    | none => simp
+    | some v => simp
+
+example : parseStsPolicy ("port=6697,duration=100".toList) true = some ⟨6697, some 100⟩ := by decide
+example : parseStsPolicy ("duration=100".toList) true = none := by decide
+example : parseStsPolicy ("port=x".toList) false = none := by decide
+
+/-! ### STS: a policy is stored only on verified TLS -/
+
+/-- One `feedMsg` on a connection the bot does not consider verified TLS (not forced by a stored policy,
+and not "ssl with some certificate validation"), during which no new socket is opened, neither adds
+nor changes a stored STS policy — for every state, configuration and server message. -/
+theorem sts_store_only_secure (cfg : Cfg) (s : St) (m : Msg) (hs : secureConn cfg s = false)
+    (hk : (feedMsg cfg m s).st.drv.sock = s.drv.sock) :
+    ∀ k p, dictGet (feedMsg cfg m s).st.db.policies k = some p → dictGet s.db.policies k = some p :=
+  (noNewPolicy_moves (ref_feedMsg (cfg := cfg) m s) (by simpa [aSecure, secureConn, α] using hs) hk).1
+
+/-- With the recording stub driver no socket is ever opened by a handler: the statement holds outright. -/
+theorem sts_store_only_secure_stub (cfg : Cfg) (s : St) (m : Msg) (hd : cfg.realDriver = false)
+    (hs : secureConn cfg s = false) :
+    ∀ k p, dictGet (feedMsg cfg m s).st.db.policies k = some p → dictGet s.db.policies k = some p :=
+  sts_store_only_secure cfg s m hs (sock_const_stub hd (ref_feedMsg (cfg := cfg) m s))
+
+/-- `CAP * LS :sts=port=6697,duration=100` -/
+def exLsSts : Msg := ⟨sCAP, [exStar, ['L','S'], "sts=port=6697,duration=100".toList], []⟩
+example : secureConn exCfg exS0 = false ∧ (step exCfg exS0 exLsSts).st.db.policies = [] := by decide
+/-- on a verified connection the same line stores the raw policy -/
+def exTls : Cfg := { exCfg with ssl := true, certValidation := true }
+example : secureConn exTls (start exTls {}).st = true ∧
+    (step exTls (start exTls {}).st exLsSts).st.db.policies = [([], "port=6697,duration=100".toList)] := by decide
+
+/-! ### STS: upgrade of an insecure connection -/
+
+/-- On an insecure connection a policy with a valid port makes `_onCapSts` move the FSM to SHUTTING_DOWN
+and call `driver.reconnect(server=Server(host, port, attempt, True), wait=True)`; nothing else. -/
+theorem sts_insecure_upgrade (cfg : Cfg) (policy : Str) (s : St) (p : StsPolicy) (hs : secureConn cfg s = false)
+    (hp : parseStsPolicy policy false = some p) :
+    onCapSts cfg policy s = drvReconnect cfg true (some (upgradeServer s p)) (onShutdown s).st := by
+  unfold onCapSts
+  simp only [hs, hp, Bool.false_eq_true, if_false]
+  rfl
+
+/-- The real `SocketDriver.reconnect(server=srv, wait=True)`: the connection is closed (and the
+disconnection time recorded) if it was open, the Irc object is reset, `srv` becomes the next server to be
+used, a reconnect is scheduled — and the stored policies are untouched. -/
+theorem upgrade_reconnect (cfg : Cfg) (srv : Server) (s : St) :
+    let s' := realReconnect cfg true (some srv) s
+    s'.drv.connected = false ∧ s'.drv.scheduled = true ∧ s'.drv.servers.head? = some srv ∧
+    s'.db.policies = s.db.policies ∧ (s.drv.connected = true → Out.closed ∈ s'.ev) ∧ s'.drv.sock = s.drv.sock := by
+  simp only [realReconnect, if_true]
+  have hr : ∀ t : St, (ircReset cfg t).drv = t.drv ∧ (ircReset cfg t).db = t.db ∧ (ircReset cfg t).ev = t.ev := by
+    intro t; unfold ircReset queueConnectMessages transition clearForReset resetSasl
+    simp only; split <;> exact ⟨rfl, rfl, rfl⟩
+  by_cases hc : s.drv.connected = true
+  · simp [drvSchedule, drvDisconnect, hc, hr, event]
+  · simp [drvSchedule, drvDisconnect, hc, hr]
+
+/-- `_sendIfMsgs` writes nothing while the driver is not connected: after the upgrade decision no byte
+goes to the insecure socket any more. -/
+theorem flush_not_connected (s : St) (h : s.drv.connected = false) : flush s = s := by
+  simp [flush, h]
+
+/-- The server the driver picks next when a server with `force_tls_verification` heads its list is
+again for the same host and forced (a stored policy can only replace the port by its own). -/
+theorem upgrade_next_server (cfg : Cfg) (s s' : St) (srv x : Server) (rest : List Server)
+    (hl : s.drv.servers = srv :: rest) (hf : srv.forced = true) (h : getNextServer cfg s = some (x, s')) :
+    x.host = srv.host ∧ x.forced = true := by
+  unfold getNextServer at h
+  simp only [hl, List.isEmpty_cons, Bool.false_eq_true, if_false] at h
+  unfold applyStsPolicy at h
+  split at h
+  · injection h with h; injection h with h1 _; subst h1; exact ⟨rfl, hf⟩
+  · split at h
+    · split at h
+      · injection h with h; injection h with h1 _; subst h1; exact ⟨rfl, hf⟩
+      · injection h with h; injection h with h1 _; subst h1; exact ⟨rfl, rfl⟩
+    · cases h
+
+/-- A forced server is always connected to with TLS, and with certificate verification switched on unless
+the operator configured a validation of their own (fingerprints / CA / verifyCertificates). -/
+theorem forced_tls_verified (cfg : Cfg) (x : Server) (hf : x.forced = true) :
+    (tlsChoice cfg x).1 = true ∧ ((tlsChoice cfg x).2 = true ∨ cfg.certValidation = true) := by
+  unfold tlsChoice
+  simp only [hf, Bool.or_true, Bool.true_and, true_and]
+  cases cfg.certValidation <;> simp
+
+example : (tlsChoice exCfg ⟨[], 6697, none, true⟩) = (true, true) := by decide
+
+/-! ### STS: a stored policy is applied while it has not expired -/
+
+/-- While a stored policy for the host parses and has not expired — in particular when no disconnection
+time is recorded — `_applyStsPolicy` answers the policy's port with forced verification and keeps it. -/
+theorem sts_applied (s : St) (server : Server) (policy : Str) (port dur : Int)
+    (hpol : dictGet s.db.policies server.host = some policy)
+    (hparse : parseStsPolicy policy true = some ⟨port, some dur⟩)
+    (hexp : stsExpired (dictGet s.db.lastDisc server.host) dur s.now = false) :
+    applyStsPolicy s server = some (⟨server.host, port, server.attempt, true⟩, s) := by
+  unfold applyStsPolicy
+  simp only [hpol, hparse, hexp, Bool.false_eq_true, if_false]
+
+/-- no recorded disconnection: the policy has not started to expire -/
+theorem sts_not_expired_without_disconnect (dur : Int) (now : Nat) : stsExpired none dur now = false := rfl
+
+/-- an expired policy is dropped and the configured server used as it is -/
+theorem sts_expired_dropped (s : St) (server : Server) (policy : Str) (port dur : Int)
+    (hpol : dictGet s.db.policies server.host = some policy)
+    (hparse : parseStsPolicy policy true = some ⟨port, some dur⟩)
+    (hexp : stsExpired (dictGet s.db.lastDisc server.host) dur s.now = true) :
+    applyStsPolicy s server = some (server, { s with db := { s.db with policies := dictDel s.db.policies server.host } }) := by
+  unfold applyStsPolicy
+  simp only [hpol, hparse, hexp, if_true]
+
+def exStored : St := { db := { policies := [("h".toList, "port=6697,duration=1000".toList)] }, now := 5000 }
+example : (applyStsPolicy exStored ⟨"h".toList, 6667, none, false⟩).map (·.1) = some ⟨"h".toList, 6697, none, true⟩ := by decide
+
 end C09
